@@ -82,6 +82,17 @@ def run(ctx):
             recs = [("%s_acc%05d" % (pre, rng.randrange(1000) * 100 + k), q[:L0] if k < max(2, len(recs) // 2) else q) for k, (nm, q) in enumerate(recs)]
             ctx.count("long_common_prefix_names")
             longnames = True
+        highnames = False
+        if i % 7 == 1 and not longnames:
+            # names in which bytes >= 0x80 occur (Latin-1 / UTF-8 text in FASTA headers) and which agree up to the first such byte, on sequences of
+            # EQUAL length: these are distinct names, the canonical order is decided by the whole name
+            pre = "".join(rng.choice("abcdefgprot_") for _ in range(rng.randint(0, 8)))
+            hi = "".join(chr(rng.randint(0xA1, 0xFF)) for _ in range(rng.randint(1, 3)))
+            L0 = min(len(q) for _, q in recs)
+            keep = max(2, len(recs) // 2)
+            recs = [(("%s%s_%s%d" % (pre, hi, rng.choice(["", "A", chr(rng.randint(0xC0, 0xFF))]), k)) if k < keep else nm, q[:L0] if k < keep else q) for k, (nm, q) in enumerate(recs)]
+            ctx.count("names_with_high_bytes")
+            highnames = True
         t = rng.choice([3, 4, 5]) if kind == "protein" else rng.choice([0, 1, 2, 5])
         t = gen.fit_type(t, kind, recs)
         th = rng.choice([1, 8])
@@ -90,7 +101,10 @@ def run(ctx):
         k = rng.randrange(1, len(recs)); perms.append(recs[k:] + recs[:k])
         for _ in range(2 if ctx.quick else 5):
             p = list(recs); rng.shuffle(p); perms.append(p)
-        grp = [Case(p, t, threads=th, fmt=("fasta" if longnames else rng.choice(["fasta", "clu", "msf"])), evlog=True) for p in perms]
+        grp = [Case(p, t, threads=th, fmt=("fasta" if longnames or highnames else rng.choice(["fasta", "clu", "msf"])), evlog=True) for p in perms]
+        if highnames:
+            for c_ in grp:
+                c_.enc = "latin-1"
         if i % 7 == 5 and not longnames:
             # more than 50 ragged records of which a few carry stray gap characters: whatever kalign concludes about "is this input aligned?" must
             # not depend on WHERE in the file those records stand (first, last, shuffled)
